@@ -142,6 +142,13 @@ def run_session(plan):
                     await t.disconnect()
                 except (CommunicationError, TimeoutError):
                     R.probes["tampered_session_response_rejected"] += 1
+                except Exception as exc:  # pylint: disable=broad-except
+                    # rejected - but not with the error a caller (or the reconnect loop) handles
+                    import traceback
+                    tb = traceback.extract_tb(exc.__traceback__)
+                    inner = next((f for f in reversed(tb) if "/xknx/" in f.filename), tb[-1])
+                    R.violate("C28.handshake-mac", f"tampered-session-response:{type(exc).__name__}@{inner.name}",
+                              f"SessionResponse with bit {bit} of its body flipped: connect() raised {exc!r}")
                 gw._secure_rx = orig
                 R.extra_faults["session_response_bit_flip"] += 1
             # and the untouched handshake works (on a fresh object, or on the one that saw all the rejected ones), repeatedly
